@@ -178,6 +178,40 @@ def judge_all(plugin, cases):
     return res
 
 
+def fails_fresh(prop, before, case) -> bool:
+    """does `case` fail its property when a fresh process first runs `before` and then `case`"""
+    tmp = os.path.join(ROOT, 'replays', f'.cand-{prop}-{os.getpid()}.json')
+    os.makedirs(os.path.dirname(tmp), exist_ok=True)
+    try:
+        with open(tmp, 'w') as f:
+            json.dump({'property': prop, 'kind': 'failing-input', 'case': case, 'before': before}, f, default=str)
+        p = subprocess.run([sys.executable, '-B', os.path.join(ROOT, 'harness', 'main.py'), prop, '--replay', tmp, '--quiet-replay'],
+                           capture_output=True, text=True, timeout=900)
+        return p.returncode == 1 and 'still reproduces' in p.stdout
+    except Exception:
+        return False
+    finally:
+        if os.path.exists(tmp):
+            os.remove(tmp)
+
+
+def minimal_history(prop, prefix, case, cap=400):
+    """a short list of earlier cases after which `case` fails in a fresh process, or None"""
+    if not prefix or not fails_fresh(prop, prefix, case):
+        return None
+    lo, hi = 1, len(prefix)              # smallest suffix length that still fails (assumes the dependence is monotone)
+    while lo < hi:
+        mid = (lo + hi) // 2
+        if fails_fresh(prop, prefix[len(prefix) - mid:], case):
+            hi = mid
+        else:
+            lo = mid + 1
+    suffix = prefix[len(prefix) - lo:]
+    if len(suffix) > 1 and fails_fresh(prop, suffix[:1], case):
+        return suffix[:1]                # the oldest case of that suffix is necessary; often it is sufficient
+    return suffix if len(suffix) <= cap else None
+
+
 def write_replay(prop, seed, n, payload):
     d = os.path.join(ROOT, 'replays')
     os.makedirs(d, exist_ok=True)
@@ -212,6 +246,7 @@ def run_check(plugin, prop, tier, seed, skip_lean=False) -> int:
     n_corpus = len(cases)
     gen = plugin.cases(rng, tier)
     cases += gen
+    all_cases = cases
     t1 = time.time()
     res = judge_all(plugin, cases)
     t2 = time.time()
@@ -246,6 +281,30 @@ def run_check(plugin, prop, tier, seed, skip_lean=False) -> int:
     if violations:
         violations.sort(key=lambda t: case_size(t[0]))
         c, i, m, j = violations[0]
+        # prefer a failing case that also fails when it is executed alone in a fresh state (a case whose failure depends on
+        # calls made earlier in the run carries them as its own history, or is reproduced by re-running the check with this seed)
+        standalone = False
+        cands = violations[:3] + [v for v in violations[3:] if v[0].get('x', {}).get('history')][:3]
+        before = []
+        for k, cand in enumerate(cands):
+            if fails_fresh(prop, [], cand[0]):
+                c, i, m, j = cand
+                standalone = True
+                break
+        if not standalone:
+            # the failure depends on what ran earlier in this process (state kept between calls): find the cases that have to
+            # run first, so that the replay file is self-contained (suffix bisection over the cases executed before it)
+            pos = {id(x): n for n, x in enumerate(all_cases)}
+            for cand in violations[:2]:
+                n = pos.get(id(cand[0]))
+                if n is None:
+                    continue
+                found = minimal_history(prop, all_cases[:n], cand[0])
+                if found is not None:
+                    c, i, m, j = cand
+                    before = found
+                    standalone = True
+                    break
         if hasattr(plugin, 'shrink'):
             try:
                 c, i, m, j = plugin.shrink(c, lambda cs: judge_all(plugin, cs)) or (c, i, m, j)
@@ -256,6 +315,8 @@ def run_check(plugin, prop, tier, seed, skip_lean=False) -> int:
             'finding_class': j.get('finding'), 'n_failing_cases_this_run': len(violations),
             'failure_classes_this_run': _classes(violations),
             'proof_broken': lean['proof_broken'], 'n_correspondence_disagreements': len(corr_breaks),
+            'standalone_reproduces': standalone, 'before': before, 'seed': seed, 'tier': tier,
+            'rerun_cmd': f'VERIF_SEED={seed} ./check {prop} --tier {tier}',
             'replay_cmd': f'./check {prop} --replay <this file>'})
         lines.append(f'VIOLATION property={prop} replay={path}')
         nviol = len(violations)
@@ -325,7 +386,7 @@ def run_check(plugin, prop, tier, seed, skip_lean=False) -> int:
     return rc
 
 
-def replay(plugin, prop, path) -> int:
+def replay(plugin, prop, path, quiet=False) -> int:
     # bring the generated part of the model and the driver up to date with /repo's current tree first
     with Lock():
         import extract
@@ -341,10 +402,14 @@ def replay(plugin, prop, path) -> int:
         if not cs:
             return 0
     else:
-        cs = [r['case']]
+        cs = list(r.get('before') or []) + [r['case']]      # `before`: cases that have to run first in the same process
     bad = 0
-    for (c, i, m, j) in judge_all(plugin, cs):
-        print(json.dumps({'case': c, 'impl': i, 'model': m, 'judgement': j}, indent=1, default=str))
+    res = judge_all(plugin, cs)
+    if r.get('kind') != 'no-failing-input-found':
+        res = res[-1:]
+    for (c, i, m, j) in res:
+        if not quiet:
+            print(json.dumps({'case': c, 'impl': i, 'model': m, 'judgement': j}, indent=1, default=str))
         if j['pfail'] or not j['corr']:
             bad += 1
     print('still reproduces' if bad else 'does not reproduce')
